@@ -108,6 +108,11 @@ class C18(PoolCheck):
         epilogue['doc'] = rng.choice(pool)
         policy = dict(rng.choice(POLICIES))
         build_first = [True] * nthreads
+        if scenario == 'racing_build' and rng.random() < 0.35:
+            # an observer: a thread that never calls build() and only POLLS the schema's status properties while the
+            # others build (waiting for a schema somebody else builds); what it reads is not judged
+            programs.append([{'api': 'poll', 'doc': pool[0]} for _ in range(rng.randrange(1, 6))])
+            build_first.append(False)
         # (a variation in which some threads USE the schema without calling build() while another thread builds it
         # was tried and withdrawn: on the unchanged tree such a user breaks the builders themselves - lazy component
         # builds outside the lock end in XMLSchemaCircularityError - and neither the statement nor the library's API
@@ -155,6 +160,12 @@ class C18(PoolCheck):
                 if scenario == 'racing_build' and build_first[t]:
                     schema.build()
                 for i, op in enumerate(prog):
+                    if op['api'] == 'poll':
+                        try:
+                            results[t][i] = {'k': 'poll', 'v': [schema.built, schema.validation_attempted, schema.validity]}
+                        except Exception as exc:
+                            results[t][i] = canon.canon_exc(exc)
+                        continue
                     if shared_res is not None:
                         call = {k: v for k, v in op.items() if k not in ('doc', 'lazy', 'ns')}
                         hooks = {'namespaces': histories.family_ns(e)} if op.get('ns') else {}
@@ -193,6 +204,10 @@ class C18(PoolCheck):
                                        'detail': dict(detail_base, thread=t, exc=canon.mask(repr(exc))[:300])})
                     break
                 for i, op in enumerate(prog):
+                    if op['api'] == 'poll':
+                        r = results[t][i] or {}
+                        counters['poll_saw_%s' % (r.get('v') or [r.get('cls')])[0]] = 1
+                        continue
                     res = jcopy(results[t][i])
                     rop = {k: v for k, v in op.items() if k not in ('doc', 'abort')}
                     ref = self.ref(case['entry'], op['doc'], rop)
@@ -272,6 +287,8 @@ class C18(PoolCheck):
             for t in range(len(progs)):
                 c = jcopy(case)
                 del c['programs'][t]
+                if c.get('build_first') and t < len(c['build_first']):
+                    del c['build_first'][t]
                 if 'schedule' in c:
                     c['schedule'] = [[tid - (tid > t), n] for tid, n in c['schedule'] if tid != t]
                 yield c
